@@ -4,6 +4,10 @@
 #       bucket shapes, LRU chain, start/anum, pos, asize);
 #   oracle: python reference structures (dict + recency list, list, sorted list, deque, bytearray, set) decide whether
 #       the implementation's answers contradict the property statement; a crash or a sanitizer report is a violation.
+#   pf: forests of pools (iwpool_create_attach x iwpool_ref x iwpool_destroy): model coq/UT/Pforest.v (pointer level, a load
+#       through a pointer to a released pool is a fault), white-box dump of numrefs/parent/children/next after every call, every
+#       free() of iwpool.c observed through a hook (order of the releases; 0xDD quarantine in the plain build, ASan in the other),
+#       oracle = the tree-level reference PfRef.
 #   scripts: random call sequences per container + a fixed set of DIRECTED sequences that cross every growth / shrink /
 #       compaction threshold of the sources from both sides (see "directed scripts" below) + corpus/C18.
 import os, json, zlib
@@ -11,7 +15,7 @@ from concurrent.futures import ThreadPoolExecutor
 import vlib
 
 LEVEL = "proof"
-MODELLED = ("hm", "ul", "pl", "sa", "rb", "xs", "av", "po")
+MODELLED = ("hm", "ul", "pl", "sa", "rb", "xs", "av", "po", "pf")
 M32 = 0xffffffff
 
 
@@ -392,7 +396,224 @@ def gen_po(rng, size):
     return {"c": "po", "lines": lines, "tag": "po"}
 
 
-GENS = {"hm": gen_hm, "ul": gen_ul, "pl": gen_pl, "sa": gen_sa, "rb": gen_rb, "xs": gen_xs, "av": gen_av, "po": gen_po}
+# ------------------------------------------------------------------------------------------------ pool forest (pf)
+class PfRef:
+    """Tree-level reference of the pool hierarchy with reference counts (no pointers, no chains): what the documentation
+    of iwpool.h promises.  A pool is released exactly when its count reaches 0; the death of a parent takes one
+    reference from every child still attached (newest child first) and detaches it; release order of one pool:
+    its attached children, its units, its user data destructor, the pool itself."""
+
+    def __init__(self):
+        self.P = {}
+        self.n = 0
+
+    def create(self, parent=None):
+        i = self.n
+        self.n += 1
+        self.P[i] = {"refs": 1, "parent": parent, "ud": 0, "fn": 0, "strs": [], "units": None}
+        return i
+
+    def kids(self, p):
+        return sorted((c for c, d in self.P.items() if d["parent"] == p), reverse=True)
+
+    def destroy(self, p, ev):
+        d = self.P[p]
+        d["refs"] -= 1
+        if d["refs"] > 0:
+            return False
+        d["parent"] = None
+        for c in self.kids(p):
+            self.P[c]["parent"] = None
+            self.destroy(c, ev)
+        ev.append(("b", p))
+        if d["fn"]:
+            ev.append("d%d" % d["ud"])
+        ev.append("f%d" % p)
+        del self.P[p]
+        return True
+
+    def drain(self, ev):
+        for i in sorted(self.P):
+            if i in self.P and self.P[i]["parent"] is None:
+                for _ in range(self.P[i]["refs"]):
+                    if i in self.P:
+                        self.destroy(i, ev)
+
+    def depth(self, p):
+        k = 0
+        while self.P[p]["parent"] is not None:
+            p = self.P[p]["parent"]; k += 1
+        return k
+
+
+PF_SIZES = ("e", "1", "8", "16", "24", "64", "100", "0")
+
+
+def _pf_fill(rng, ref, lines, p, n=1):
+    """unit growth on pool p: allocations / strings that cross the unit size"""
+    for _ in range(n):
+        k = rng.below(4)
+        if k == 0:
+            lines.append("pf alloc %d %d" % (p, rng.choice([1, 7, 8, 9, 24, 63, 64, 65, 200])))
+        elif k == 1:
+            lines.append("pf chk %d" % p)
+        else:
+            lines.append("pf put %d %s" % (p, hx(bytes(rng.range(1, 255) for _ in range(rng.choice([1, 7, 8, 9, 30, 70]))))))
+
+
+def gen_pf(rng, size):
+    """random forest: attach below any live pool (several levels), extra references, user data, unit growth, destroys of
+    any live pool at any time; then every reference is dropped in one of four orders"""
+    ref = PfRef()
+    lines = ["pf reset"]
+    tok = [0]
+    maxp = rng.choice([4, 8, 14, 24])
+    deep = rng.below(3) == 0
+
+    def live():
+        return sorted(ref.P)
+    for _ in range(size):
+        lv = live()
+        op = rng.weighted([("new", 6), ("attach", 22 if len(lv) else 0), ("ref", 12), ("destroy", 14), ("fill", 16), ("ud", 8),
+                           ("udget", 2), ("uddetach", 3), ("nil", 1), ("freefn", 2), ("attachnil", 1)])
+        if op in ("new", "attachnil") or (not lv and op != "nil"):
+            if ref.n < 200 and len(lv) < maxp:
+                lines.append(("pf new %s" if op != "attachnil" else "pf attach nil %s") % rng.choice(PF_SIZES)); ref.create()
+        elif op == "attach":
+            if ref.n < 200 and len(lv) < maxp:
+                q = max(lv, key=lambda x: (ref.depth(x), x)) if deep and rng.below(2) else rng.choice(lv)
+                lines.append("pf attach %d %s" % (q, rng.choice(PF_SIZES))); ref.create(q)
+        elif op == "ref":
+            q = rng.choice(lv)
+            if ref.P[q]["refs"] < 4:
+                lines.append("pf ref %d" % q); ref.P[q]["refs"] += 1
+        elif op in ("destroy", "freefn"):
+            q = rng.choice(lv)
+            lines.append("pf %s %d" % (op, q)); ref.destroy(q, [])
+        elif op == "fill":
+            _pf_fill(rng, ref, lines, rng.choice(lv))
+        elif op == "ud":
+            q = rng.choice(lv)
+            k = rng.below(8)
+            if k == 0:
+                t, fn = 0, 1
+            else:
+                tok[0] += 1; t, fn = tok[0], int(k != 1)
+            lines.append("pf ud %d %d %d" % (q, t, fn)); ref.P[q]["ud"], ref.P[q]["fn"] = t, fn
+        elif op == "udget":
+            lines.append("pf udget %d" % rng.choice(lv))
+        elif op == "uddetach":
+            q = rng.choice(lv)
+            lines.append("pf uddetach %d" % q); ref.P[q]["fn"] = 0
+        elif op == "nil":
+            lines.append("pf destroy nil")
+    order = rng.choice(["parents", "children", "mixed", "drain"])
+    _pf_finish(rng, ref, lines, order)
+    return {"c": "pf", "lines": lines, "tag": "pf-" + order}
+
+
+def _pf_finish(rng, ref, lines, order, grow=True):
+    """drops every reference still held: parents first / children first / one reference of a random pool at a time / `drain`;
+    survivors keep allocating in between"""
+    if order == "drain":
+        lines.append("pf drain"); ref.drain([])
+    guard = 0
+    while ref.P and guard < 5000:
+        guard += 1
+        lv = sorted(ref.P)
+        q = lv[0] if order == "parents" else lv[-1] if order == "children" else rng.choice(lv)
+        n = 1 if order == "mixed" else ref.P[q]["refs"]
+        for _ in range(n):
+            if q in ref.P:
+                lines.append("pf destroy %d" % q); ref.destroy(q, [])
+        if grow and ref.P and rng.below(3) == 0:
+            _pf_fill(rng, ref, lines, rng.choice(sorted(ref.P)))
+    lines.append("pf end")
+
+
+def _pf_script(tag, shape, refs, order, rng, grow=True, ud=True):
+    """shape: list of parents (None = root) in creation order; refs: extra references per pool; order: pool numbers, one
+    iwpool_destroy each (skipped when the pool is gone); then the rest parents-first."""
+    ref = PfRef()
+    lines = ["pf reset"]
+    for i, q in enumerate(shape):
+        siz = ("8", "16", "e", "64")[i % 4]
+        lines.append("pf new %s" % siz if q is None else "pf attach %d %s" % (q, siz)); ref.create(q)
+        if ud:
+            lines.append("pf ud %d %d 1" % (i, i + 1)); ref.P[i]["ud"], ref.P[i]["fn"] = i + 1, 1
+        lines.append("pf put %d %s" % (i, hx(b"pool%03d" % i)))
+    for i, k in enumerate(refs):
+        for _ in range(k):
+            lines.append("pf ref %d" % i); ref.P[i]["refs"] += 1
+    for q in order:
+        if q in ref.P:
+            lines.append("pf destroy %d" % q); ref.destroy(q, [])
+            if grow:
+                for x in sorted(ref.P):
+                    lines.append("pf put %d %s" % (x, hx(b"survivor-%03d-after-%03d-xxxxxxxxxxxxxxxx" % (x, q))))
+                    lines.append("pf chk %d" % x)
+    _pf_finish(rng, ref, lines, "parents", grow=False)
+    return {"c": "pf", "lines": lines, "tag": tag}
+
+
+def _perms(l):
+    if len(l) <= 1:
+        return [list(l)]
+    return [[x] + r for i, x in enumerate(l) for r in _perms(l[:i] + l[i + 1:])]
+
+
+def directed_pf(rng):
+    """hierarchy x reference counting x destruction order, exhaustively for the small shapes: every subset of pools holding an
+    extra reference, every order of the first destroy of each pool (parent first / child first / interleaved), unit growth
+    of the survivors after every step"""
+    ss = []
+    # chains root <- c1 <- c2 (<- c3)
+    for depth in (1, 2, 3):
+        n = depth + 1
+        shape = [None] + list(range(depth))
+        cases = [(m, pm) for m in range(1 << n) for pm in _perms(list(range(n)))]
+        if depth == 3:
+            cases = [cases[rng.below(len(cases))] for _ in range(40)]
+        for m, pm in cases:
+            refs = [(m >> i) & 1 for i in range(n)]
+            ss.append(_pf_script("dir-pf-chain%d" % depth, shape, refs, pm, rng, grow=depth < 3))
+    # star: one parent, three children (the removal of the head / middle / last child of the chain included)
+    shape = [None, 0, 0, 0]
+    for m in range(8):
+        refs = [0] + [(m >> i) & 1 for i in range(3)]
+        for order in ([0], [1, 0], [2, 0], [3, 0], [3, 2, 1, 0], [1, 2, 3, 0], [2, 0, 2]):
+            ss.append(_pf_script("dir-pf-star", shape, refs, order, rng))
+    for refs in ([0, 2, 0, 1], [1, 1, 1, 1], [0, 0, 3, 0]):
+        ss.append(_pf_script("dir-pf-star", shape, refs, [0, 0], rng))
+    # two levels below the root: 0 <- {1 <- {3, 4}, 2 <- {5}}
+    shape = [None, 0, 0, 1, 1, 2]
+    for _ in range(24):
+        refs = [rng.weighted([(0, 5), (1, 3), (2, 1)]) for _ in shape]
+        order = [rng.below(6) for _ in range(rng.range(1, 5))]
+        ss.append(_pf_script("dir-pf-tree", shape, refs, order, rng))
+    ss.append(_pf_script("dir-pf-tree", shape, [0, 1, 0, 1, 0, 1], [0], rng))
+    ss.append(_pf_script("dir-pf-tree", shape, [0, 0, 1, 0, 1, 0], [0], rng))
+    # a deep chain, references on every other level: the death of the root stops at each of them in turn
+    for par in (0, 1):
+        shape = [None] + list(range(11))
+        ss.append(_pf_script("dir-pf-deep", shape, [int(i % 2 == par and i > 0) for i in range(12)], [0], rng, grow=False))
+        ss.append(_pf_script("dir-pf-deep", shape, [int(i % 2 == par and i > 0) for i in range(12)], [6, 0, 3], rng, grow=False))
+    # a wide parent: 40 children, some with references, some destroyed first (chain surgery at head / middle / tail)
+    shape = [None] + [0] * 40
+    refs = [0] + [int(rng.below(3) == 0) for _ in range(40)]
+    ss.append(_pf_script("dir-pf-wide", shape, refs, [40, 1, 20, 39, 2, 0], rng, grow=False, ud=False))
+    ss.append(_pf_script("dir-pf-wide", shape, refs, [rng.range(1, 40) for _ in range(25)] + [0], rng, grow=False))
+    # the documented use: a child retained by a second owner outlives its parent and keeps growing (round-5 seeded miss)
+    lines = ["pf reset", "pf new 64", "pf attach 0 64", "pf attach 0 64", "pf attach 0 64"]
+    lines += ["pf ud %d %d 1" % (i, i + 1) for i in range(4)]
+    lines += ["pf put 2 " + hx(b"kept alive by the second owner"), "pf ref 2", "pf destroy 0"]
+    lines += ["pf put 2 " + hx(b"kept alive by the second owner/%d" % i) for i in range(50)]
+    lines += ["pf chk 2", "pf udget 2", "pf destroy 2", "pf end"]
+    ss.append({"c": "pf", "lines": lines, "tag": "dir-pf-second-owner"})
+    return ss
+
+
+GENS = {"hm": gen_hm, "ul": gen_ul, "pl": gen_pl, "sa": gen_sa, "rb": gen_rb, "xs": gen_xs, "av": gen_av, "po": gen_po, "pf": gen_pf}
 
 
 # ------------------------------------------------------------------------------------------------ directed scripts
@@ -739,7 +960,7 @@ def directed_po(rng):
 
 def directed(rng):
     out = []
-    for f in (directed_pl, directed_ul, directed_hm, directed_rb, directed_xs, directed_sa, directed_po):
+    for f in (directed_pl, directed_ul, directed_hm, directed_rb, directed_xs, directed_sa, directed_po, directed_pf):
         out += f(rng.fork())
     return out
 
@@ -1316,8 +1537,113 @@ def oracle_po(lines, outs):
     return bad
 
 
+def _pf_dump(o):
+    """white-box part of a pf answer: {id: (refs, parent, kids, units, ud, fn)}"""
+    d = {}
+    if "|" not in o:
+        return None
+    for t in o.split("|", 1)[1].split():
+        f = t.split(":")
+        if len(f) != 10:
+            return None
+        d[int(f[0])] = (f[1], f[2], f[3], int(f[8]), f[9], int(f[7]))
+    return d
+
+
+def oracle_pf(lines, outs):
+    """the tree-level reference PfRef decides: results, reference counts, which pools exist, who is attached to whom,
+    which releases a call causes and in which order (units, user data destructor, pool; each exactly once), contents of
+    the surviving pools, nothing alive and no freed block modified at the end"""
+    bad = []
+    ref = PfRef()
+    units = {}
+    for i, (l, o) in enumerate(zip(lines, outs)):
+        t = l.split()
+        op = t[1]
+        r = kv(o.split("|")[0])
+        if op == "reset":
+            ref = PfRef(); units = {}
+            continue
+        if op == "end":
+            if r.get("live") != str(len(ref.P)):
+                bad.append((i, "%s pools are alive after every reference was dropped, reference %d (%s)" % (r.get("live"), len(ref.P), o)))
+            elif r.get("dirty") != "0":
+                bad.append((i, "%s released block(s) were written to after free()" % r.get("dirty")))
+            continue
+        ev = []
+        exp = None
+        if op in ("new", "attach"):
+            q = None if op == "new" or t[2] == "nil" else int(t[2])
+            if q is not None and q not in ref.P:
+                continue
+            exp = "id=%d" % ref.create(q)
+        elif op == "drain":
+            ref.drain(ev); exp = "ok"
+        elif op == "destroy" and t[2] == "nil":
+            exp = "r=0"
+        else:
+            p = int(t[2])
+            if p not in ref.P:
+                continue            # the caller broke the contract (not generated)
+            d = ref.P[p]
+            if op == "ref":
+                d["refs"] += 1; exp = "refs=%d" % d["refs"]
+            elif op == "destroy":
+                exp = "r=%d" % int(ref.destroy(p, ev))
+            elif op == "freefn":
+                ref.destroy(p, ev); exp = "r=-"
+            elif op == "alloc":
+                if not (int(t[3]) == 0 and r.get("p") == "0") and (r.get("p") != "1" or r.get("in") != "1" or r.get("al") != "1"):
+                    bad.append((i, "alloc(%s) from pool %d: %s (expected an aligned region inside one unit)" % (t[3], p, o[:120])))
+            elif op == "put":
+                d["strs"].append(unhx(t[3]))
+                if r.get("v") != t[3] or r.get("in") != "1":
+                    bad.append((i, "string duplicated into pool %d reads back %s" % (p, o[:120])))
+            elif op == "chk":
+                exp = "n=%d t=1 crc=%08x" % (len(d["strs"]), zlib.crc32(b"".join(d["strs"])) & M32)
+            elif op == "ud":
+                if d["fn"]:
+                    ev.append("d%d" % d["ud"])
+                d["ud"], d["fn"] = int(t[3]), int(t[4] != "0"); exp = "ok"
+            elif op == "udget":
+                exp = "ud=%d" % d["ud"]
+            elif op == "uddetach":
+                exp = "ud=%d" % d["ud"]; d["fn"] = 0
+        head = o.split(" ev=")[0]
+        if exp is not None and head != exp:
+            bad.append((i, "%s, reference %s" % (o[:100], exp)))
+            continue
+        dump = _pf_dump(o)
+        if dump is None:
+            bad.append((i, "malformed answer %s" % o[:100])); continue
+        # releases caused by the call, in order; the number of unit blocks of a pool is taken from its last dump
+        eev = []
+        for e in ev:
+            if isinstance(e, tuple):
+                if units.get(e[1]):
+                    eev.append("b%d" % (2 * units[e[1]]))
+            else:
+                eev.append(e)
+        if r.get("ev") != (",".join(eev) or "-"):
+            bad.append((i, "releases %s, reference %s (b<n> = unit blocks, d<t> = user data destructor, f<i> = pool i)" % (
+                r.get("ev"), ",".join(eev) or "-")))
+            continue
+        units = {k: v[5] for k, v in dump.items()}
+        if sorted(dump) != sorted(ref.P):
+            bad.append((i, "live pools %s, reference %s" % (sorted(dump), sorted(ref.P)))); continue
+        for k in sorted(dump):
+            refs, par, kids, ud, fn, _ = dump[k]
+            d = ref.P[k]
+            if par == "!" or "!" in kids:
+                bad.append((i, "pool %d keeps a %s link to a released pool (%s)" % (k, "parent" if par == "!" else "child", o.split("|")[1][:160]))); break
+            e = (str(d["refs"]), "-" if d["parent"] is None else str(d["parent"]), ",".join(map(str, ref.kids(k))) or "-", d["ud"], str(d["fn"]))
+            if (refs, par, kids, ud, fn) != e:
+                bad.append((i, "pool %d: refs:parent:children:user data:fn = %s, reference %s" % (k, ":".join(map(str, (refs, par, kids, ud, fn))), ":".join(map(str, e))))); break
+    return bad
+
+
 ORACLES = {"hm": oracle_hm, "ul": oracle_ul, "pl": oracle_pl, "sa": oracle_sa, "rb": oracle_rb, "xs": oracle_xs,
-           "av": oracle_av, "po": oracle_po}
+           "av": oracle_av, "po": oracle_po, "pf": oracle_pf}
 
 
 # ------------------------------------------------------------------------------------------------ running
@@ -1489,7 +1815,7 @@ def check(run):
     mult = 1 if proofs_ok else 10
     # scripts per container and operations per script
     plan = {"hm": (70, 300), "ul": (50, 180), "pl": (30, 140), "sa": (30, 120), "rb": (30, 80), "xs": (40, 90),
-            "av": (30, 180), "po": (30, 60)}
+            "av": (30, 180), "po": (30, 60), "pf": (60, 110)}
     if not quick:
         plan = {c: (n * 120, sz * 2) for c, (n, sz) in plan.items()}
     scripts = load_corpus()
@@ -1518,11 +1844,14 @@ def check(run):
                            "colliding modulo the bucket mask, grow/shrink/mixed phases across 64<->128<->256 buckets, rename onto "
                            "live keys, clear-then-reuse; lists: both ends, insert/remove at the borders, anum 32 crossed both ways; "
                            "sorted arrays with duplicates; ring wrap + back; string doubling, printf across the 1024 byte stack "
-                           "buffer; AVL ascending/descending/random; pool units, children, split) + the directed threshold scripts (tags dir-*: "
+                           "buffer; AVL ascending/descending/random; pool units, children, split; pf = forests of pools: attach several levels deep, "
+                           "extra references, user data, unit growth, destroy of any live pool, then every reference dropped parents first / "
+                           "children first / one at a time / drain) + the directed threshold scripts (tags dir-*: "
                            "lists of 255..1100 unique elements filled and drained from either end / the middle across the growth, "
                            "shrink and start-offset-compaction points; bucket array 64<->512 with and without LRU bound, one bucket "
                            "through its steps of 4; ring wrap/back per length; string growth per doubling step; pool unit exact fit; "
-                           "sorted arrays filled to capacity). distinct = distinct script text",
+                           "sorted arrays filled to capacity; dir-pf-*: chains, stars and trees of pools with every subset of extra references "
+                           "x every order of destruction, survivors growing in between). distinct = distinct script text",
                       assumptions=["allocation failures are not injected (malloc/realloc succeed)",
                                    "ring buffer: after iwrb_back on a wrapped ring only the units still known to be present are compared "
                                    "(the ring keeps reporting len cached units)",
